@@ -43,6 +43,67 @@ for _pid, _mods in EXTRA_MODULES.items():
     if _pid in PROPS:
         PROPS[_pid]["modules"] = list(dict.fromkeys(PROPS[_pid]["modules"] + _mods))
 
+# Obligations over tables regenerated from the Go source on every run (translators T2 and T4, DESIGN 5.4): the Lean
+# module that states the obligation is added to the property's audited modules, the obligation name to
+# PROP["obligations"] (a translator line `OBLIGATION <name> BROKEN <fact>` then counts for the property), and the
+# translator to its trusted base.
+TRANSLATOR_TIES = {
+    "filter_sigs_are_standard": {
+        "props": ["C01", "C15", "C16", "C17"],
+        "module": "Proofs.FilterSigs",
+        "claim": "Source tie of the filter signatures (translator T2, re-run on every check): the name, parameter types, "
+                 "default-function parameters and error result of every AddFilter call of filters.AddStandardFilters are "
+                 "extracted with go/types and the obligation filter_sigs_are_standard re-checks that they form the registry "
+                 "lookupSig/applyFilter are defined on (lookupSig_is_source: for every name the model's lookup is the lookup in "
+                 "the extracted table); a changed signature, a new or a removed filter breaks the check.",
+        "trusted": "translator T2 (translate/filters, go/packages + go/types of golang.org/x/tools v0.29.0, nothing executed) reads "
+                   "the AddFilter calls reachable from filters.AddStandardFilters; filter_sigs_are_standard re-checks its output "
+                   "against the model's table stdFilters on every run (names, parameter types, default-function parameters, "
+                   "error result); the filter BODIES are tied by the correspondence streams, not by T2",
+    },
+    "token_re_is_source": {
+        "props": ["C05", "C19"],
+        "module": "Proofs.TokenRe",
+        "claim": "Source tie of the token pattern (translator T4, re-run on every check): the format string, the Sprintf "
+                 "arguments and the exclusion loop of parser.formTokenMatcher are extracted with go/ast; evaluated in Lean they "
+                 "build, for the default delimiters (token_re_is_source, by evaluation) and for every delimiter quadruple with "
+                 "an ASCII tag-right delimiter (token_re_is_source_all, by proof), exactly the text Re.toGoSyntax prints for the "
+                 "model's tokenRe, up to the one documented spelling (?s:.+?) = (?s:.)+?; the groups are numbered as Scan "
+                 "indexes them (tokenRe_groupOrder). The `rex` stream compiles printed expressions with Go's regexp and compares "
+                 "match and submatch indices with the model's matcher, for random expressions and for the real token matcher "
+                 "under random delimiters.",
+        "trusted": "translator T4 (translate/tokenre, go/ast, nothing executed) reads the string-building expressions of "
+                   "parser.formTokenMatcher; token_re_is_source re-checks on every run that the text they build is the model's "
+                   "tokenRe printed in Go syntax. Trusted there: the Lean reading of fmt.Sprintf (%s, %v, %%), regexp.QuoteMeta, "
+                   "strings.Join and of the range loop over an ASCII string (TokenReSrc.pattern), the printer Re.toGoSyntax "
+                   "(that its text denotes the expression), and the one normalisation (?s:.+?) = (?s:.)+?; that Go's regexp "
+                   "reads the text as the model's matcher reads the expression is tied by the scan/delims streams, not by T4",
+    },
+}
+for _name, _t in TRANSLATOR_TIES.items():
+    for _pid in _t["props"]:
+        if _pid in PROPS:
+            _P = PROPS[_pid]
+            _P["modules"] = list(dict.fromkeys(_P["modules"] + [_t["module"]]))
+            _P["obligations"] = list(dict.fromkeys(_P.get("obligations", []) + [_name]))
+            _P["trusted_base"] = list(dict.fromkeys(_P.get("trusted_base", []) + [_t["trusted"]]))
+            if _t["claim"] not in LEVEL_TEXT[_pid]["text"]:
+                LEVEL_TEXT[_pid]["text"] = LEVEL_TEXT[_pid]["text"].rstrip() + " " + _t["claim"]
+            if "source facts re-extracted" not in LEVEL_TEXT[_pid]["technique"]:
+                LEVEL_TEXT[_pid]["technique"] += " + source facts re-extracted by a translator on every run and checked by `decide`"
+
+# correspondence streams added on top of what each Cxx.py declares
+EXTRA_STREAMS = {
+    # the model's regular expressions (printer + matcher) against regexp.Compile / FindStringSubmatchIndex, and the real
+    # token matcher (verif hook VerifTokenMatcher) against tokenRe, text and indices (harness/stream_rex.go)
+    "C05": [{"name": "rex", "shards": 4}],
+    "C19": [{"name": "rex", "shards": 4}],
+}
+for _pid, _ss in EXTRA_STREAMS.items():
+    if _pid in PROPS:
+        _have = {s["name"] for s in PROPS[_pid]["streams"]}
+        PROPS[_pid]["streams"] = PROPS[_pid]["streams"] + [s for s in _ss if s["name"] not in _have]
+
 # hook commits in /repo (build tag `verif`)
 HOOK_COMMITS = ["635e10c"]
 # properties that are not claimed, with the reason
